@@ -3,6 +3,10 @@
 package rfmt
 
 import (
+	"bufio"
+	"encoding/json"
+	stdfmt "fmt"
+	"os"
 	"reflect"
 	"runtime"
 	"sync"
@@ -60,6 +64,9 @@ func verifID(p *pp) uint64 {
 }
 
 func verifPool(ev string, p *pp) {
+	if ev == "get" {
+		verifMode(p, "G", -1, -1) // a printer starts a new life: pristine mode and override
+	}
 	sink := VerifPoolSink
 	if sink == nil {
 		return
@@ -77,4 +84,78 @@ func verifPool(ev string, p *pp) {
 		BufLen: raw.Len(), BufCap: raw.Cap(), BufMode: int(bv.FieldByName("mode").Int()),
 		BufOpen: bv.FieldByName("markerOpen").Bool(), BufValid: int(bv.FieldByName("validUntil").Int()), BufArr: arr,
 	})
+}
+
+// VerifModeEvent: one event per change of the printer's output mode / override. Ev is the function:
+// "U" startUnsafe, "R" startPreRedactable, "SO" startSafeOverride, "UO" startUnsafeOverride (M0/O0: mode
+// and override before, M1/O1: after), "X" restorer.restore (M0/O0: what it restores to, M1/O1: the state
+// after), "D" entry of doPrint/doPrintf/doPrintln after its mode switch, "A+" / "A-" entry and exit of
+// printArg, "N" a nested printer made by SafePrinter.Print/Printf (Pid: the nested one, Par: its parent;
+// M0/O0 the parent's state, M1/O1 the nested printer's), "G" a printer handed out by newPrinter.
+type VerifModeEvent struct {
+	Seq int64  `json:"seq"`
+	Ev  string `json:"ev"`
+	Pid uint64 `json:"pid"`
+	Par uint64 `json:"par"`
+	M0  int    `json:"m0"`
+	O0  int    `json:"o0"`
+	M1  int    `json:"m1"`
+	O1  int    `json:"o1"`
+	// Buf identifies the printer's Buffer object (not serialised): the same value as VerifEvent.Addr of
+	// the buffer package's events.
+	Buf uintptr `json:"-"`
+}
+
+// VerifModeSink receives the events; nil (the default) disables tracing.
+var VerifModeSink func(ev VerifModeEvent)
+
+var verifModeSeq int64
+
+func verifMode(p *pp, ev string, m0, o0 int) {
+	if sink := VerifModeSink; sink != nil {
+		sink(VerifModeEvent{Seq: atomic.AddInt64(&verifModeSeq, 1), Ev: ev, Pid: verifID(p),
+			M0: m0, O0: o0, M1: int(p.buf.GetMode()), O1: int(p.override), Buf: uintptr(unsafe.Pointer(&p.buf.Buffer))})
+	}
+}
+
+func verifArg(p *pp) func() {
+	if VerifModeSink == nil {
+		return func() {}
+	}
+	verifMode(p, "A+", -1, -1)
+	return func() { verifMode(p, "A-", -1, -1) }
+}
+
+func verifNested(p, np *pp) {
+	if sink := VerifModeSink; sink != nil {
+		sink(VerifModeEvent{Seq: atomic.AddInt64(&verifModeSeq, 1), Ev: "N", Pid: verifID(np), Par: verifID(p),
+			M0: int(p.buf.GetMode()), O0: int(p.override), M1: int(np.buf.GetMode()), O1: int(np.override),
+			Buf: uintptr(unsafe.Pointer(&np.buf.Buffer))})
+	}
+}
+
+// REDACT_VERIF_MODE_TRACE=<path prefix> makes a process (e.g. this repository's test suite built with
+// the verif tag) append its mode events to <prefix>.<pid>.
+func init() {
+	path := os.Getenv("REDACT_VERIF_MODE_TRACE")
+	if path == "" {
+		return
+	}
+	f, err := os.OpenFile(stdfmt.Sprintf("%s.%d", path, os.Getpid()), os.O_CREATE|os.O_WRONLY|os.O_APPEND, 0o644)
+	if err != nil {
+		return
+	}
+	var mu sync.Mutex
+	w := bufio.NewWriter(f)
+	VerifModeSink = func(ev VerifModeEvent) {
+		b, err := json.Marshal(ev)
+		if err != nil {
+			return
+		}
+		mu.Lock()
+		w.Write(b)
+		w.WriteByte('\n')
+		w.Flush()
+		mu.Unlock()
+	}
 }
